@@ -13,6 +13,8 @@ EXTENDS Integers, Sequences, FiniteSets, TLC, Json
 
 D == 10                                   \* coordinates are k / D; periods 0.5, 1.0, 2.5 are exact binary fractions, so the
                                           \* lattice value of x mod p is what IEEE fmod returns to within an ulp of x
+                                          \* (periods 0.7, 0.3, 0.1 - not representable exactly, least of all in single precision -
+                                          \* are explored through the PeriodicToken cases: congruence modulo the period as given)
 Coord == {-12, -5, -4, 0, 3, 7, 25}       \* a few 1-D arguments (numerators)
 \* planar points with integer radius (numerators): <<x, y, r>>
 Pyth == {<<3, 4, 5>>, <<-3, 4, 5>>, <<-4, -3, 5>>, <<5, -12, 13>>, <<0, 5, 5>>, <<-5, 0, 5>>, <<8, 6, 10>>, <<7, 0, 7>>, <<0, -2, 2>>}
@@ -91,7 +93,7 @@ Cases ==
   \cup {[w |-> "VectorPeriodicTransform1D", p |-> 5, x |-> x, prev |-> pv] : pv \in Prevs, x \in Coord}
   \cup {[w |-> "VectorPeriodicTransform2D", p |-> 5, q |-> 25, x |-> x, y |-> y, prev |-> pv] : pv \in Prevs, x \in {-12, 7}, y \in {-5, 3}}
   \cup {[w |-> "VectorPeriodicTransform3D", p |-> 5, q |-> 25, s |-> 10, x |-> x, y |-> y, z |-> z, prev |-> pv] : pv \in Prevs, x \in {-12, 7}, y \in {-5}, z \in {-25, 25}}
-  \cup {[w |-> "PeriodicToken", p |-> p, token |-> t] : p \in {5, 10}, t \in {"neg_tiny", "neg_zero", "huge", "neg_huge", "exact_multiple", "neg_exact_multiple", "just_below_period"}}
+  \cup {[w |-> "PeriodicToken", p |-> p, token |-> t] : p \in {5, 10, 7, 3, 1}, t \in {"neg_tiny", "neg_zero", "huge", "neg_huge", "exact_multiple", "neg_exact_multiple", "just_below_period", "generic", "neg_generic"}}
   \cup {[w |-> "PolygonMask2D", poly |-> i, X |-> pt[1], Y |-> pt[2]] : i \in 1..NPolys, pt \in HalfPts}
   \cup {[w |-> "sample1d", lo |-> lo, hi |-> hi, n |-> n] : lo \in {-5}, hi \in {-5, 7}, n \in {1, 2, 3, 5}}
   \* sample counts for which lo + (n - 1) * fl((hi - lo) / (n - 1)) does not round back to hi: the last point is hi itself all the same
